@@ -112,3 +112,7 @@ META["C38"] = dict(technique=_FN_TECH, note=_FN_NOTE,
 META["C39"] = dict(technique=_FN_TECH, note="Temp-dir file system; permission errors are represented by ENOTDIR / directory states because the checks run as root.",
     text="KeyFile.tla models OpenOrWritePrivKey as a state machine over the state of the path; every state is replayed with two consecutive loads: result is a usable key xor an error, "
          "a missing file is created and reloads to the same identity, empty / garbage / wrong-type / public-key PEM / directory / path-below-a-file states are errors.")
+REGISTRY["C34"] = ("fn", "c34")
+META["C34"] = dict(technique=_FN_TECH, note="Only-if direction as stated by the property; a handler that is stricter than its configuration is reported as drift, not as a violation.",
+    text="Filters.tla: MayOffer(kind, cfg, stream) for echo / forwarding / relay / api-accept / srpc server / pubsub / solicitation handlers; every (configuration, stream) pair over a small "
+         "universe (foreign protocols, other local peer, remote peer outside the list) is replayed on the real controllers: offers => MayOffer.")
